@@ -154,8 +154,21 @@ def survives(ctx):
     ctx.check(not real, h, "the handler neither re-raises nor leaves the loop", "the per-request handler contains %s: one bad request ends the tracker" % [type(n).__name__ for n in real])
     # everything but readline / the EOF test is inside the try
     outside = [s for s in lp.body if s is not tr]
+    # a statement outside the try can stop the tracker on a malformed request only if it depends on the request:
+    # names derived from the line just read (fixpoint over the loop body), the registry, or the clean-up table
+    tainted = set()
+    for a in lp.body:
+        if isinstance(a, ast.Assign) and any(call_attr(c) == "readline" for c in calls_in(a)):
+            tainted |= set(stores_to(a))
+    changed = True
+    while changed:
+        changed = False
+        for a in ast.walk(lp):
+            if isinstance(a, ast.Assign) and names_in(a.value) & tainted and not set(stores_to(a)) <= tainted:
+                tainted |= set(stores_to(a))
+                changed = True
     def harmless(s_):
-        return not any(True for _ in calls_in(s_)) and "registry" not in unparse(s_, 400) and "_CLEANUP_FUNCS" not in unparse(s_, 400)
+        return not (names_in(s_) & tainted) and "registry" not in unparse(s_, 400) and "_CLEANUP_FUNCS" not in unparse(s_, 400)
     ok = all((isinstance(s, ast.Assign) and any(call_attr(c) == "readline" for c in calls_in(s))) or (isinstance(s, ast.If) and any(isinstance(b, ast.Break) for b in s.body) and not _cleanup_calls(s.body)) or harmless(s) for s in outside)
     ctx.check(ok, lp, "only reading the line and the EOF test are outside the try", "request processing outside the protecting try: %s" % [unparse(s, 50) for s in outside])
     cl = _cleanup_calls(lp)
